@@ -6,7 +6,7 @@
 EXTENDS HseqMC, Json, SequencesExt
 CONSTANTS Seed, Modulus
 
-Selected == sh # <<>> /\ (Modulus = 1 \/ (Checksum(sh) + Seed) % Modulus = 0 \/ (WithBoundary /\ sh \in BoundarySet))
+Selected == sh # <<>> /\ (Modulus = 1 \/ (Checksum(sh) + Seed) % Modulus = 0 \/ (WithBoundary /\ sh \in BoundarySetHseq))
 
 Cyc(s, n, stride) == [i \in 1..n |-> s[((i * stride + n) % Len(s)) + 1]]
 Rev(s) == [i \in 1..Len(s) |-> s[Len(s) + 1 - i]]
@@ -19,7 +19,7 @@ Emit ==
                     \cup {Rev([j \in 1..Len(l) |-> l[j].key]), <<keys[1], "zz">>, <<"zz">>}
       typeTuples == {Cyc(types, n, 1) : n \in 1..9} \cup {Cyc(types, n, 3) : n \in 2..9} \cup {<<types[1], "uintptr">>}
   IN PrintT(ToJson(
-       [t |-> "shape", ck |-> Checksum(sh), boundary |-> (WithBoundary /\ sh \in BoundarySet),
+       [t |-> "shape", ck |-> Checksum(sh), boundary |-> (WithBoundary /\ sh \in BoundarySetHseq),
         fields |-> sh, size |-> SSize(sh), align |-> SAlign(sh),
         listing |-> [j \in 1..Len(l) |-> [key |-> l[j].key, name |-> l[j].name, id |-> l[j].id, ty |-> l[j].ty,
                                            byval |-> l[j].byval, abs |-> l[j].abs, path |-> NamePath(sh, l[j].pos)]],
